@@ -55,6 +55,9 @@ _FIXED = os.environ.get("VERIF_C08_MODEL") != "prefix"      # the two defects ar
 MODEL_CONSTANTS = "  PoisonedCache = %s\n  TocGuarded = %s\n" % (("FALSE", "TRUE") if _FIXED else ("TRUE", "FALSE"))
 
 
+SCALE = [1]                # time limits are multiplied by this when a scenario that ran out of time is run a second time
+
+
 class Injected(Exception):
     """The injected internal failure (deliberately not a ParseError)."""
 
@@ -128,6 +131,10 @@ def run_scenario(sc: Dict[str, Any]) -> Dict[str, Any]:
 
     fmt, pt, kind, inherit = sc["fmt"], sc["pt"], sc["kind"], sc["inherit"]
     docA, docB = sc["docA"], sc["docB"]
+    # scenarios share a worker process: what an earlier one may have left in docutils' process-wide role table is not
+    # this scenario's business (within a scenario it is: the bystander X is rendered after A)
+    from docutils.parsers.rst import roles as _roles
+    _roles._roles.pop("", None)
     src, names = scenario_source(kind, inherit, docA, docB)
     try:
         tree = ast.parse(src)
@@ -416,7 +423,7 @@ def run_scenario(sc: Dict[str, Any]) -> Dict[str, Any]:
         sink = io.StringIO()
         rev.update({names[o]: o for o in OBJS if o in names})
         try:
-            with contextlib.redirect_stdout(sink), contextlib.redirect_stderr(sink), _Alarm(CALL_TIMEOUT):
+            with contextlib.redirect_stdout(sink), contextlib.redirect_stderr(sink), _Alarm(CALL_TIMEOUT * SCALE[0]):
                 b = system.systemBuilder(system)
                 b.addModuleString(src, "m")
                 b.buildModules()
@@ -477,7 +484,7 @@ def run_scenario(sc: Dict[str, Any]) -> Dict[str, Any]:
             r = None
             exc = ""
             try:
-                with contextlib.redirect_stdout(sink), contextlib.redirect_stderr(sink), _Alarm(CALL_TIMEOUT):
+                with contextlib.redirect_stdout(sink), contextlib.redirect_stderr(sink), _Alarm(CALL_TIMEOUT * SCALE[0]):
                     val = fn_of[op](ob)
                     html = "" if val is None else flatten(val)
             except HangAlarm as e:           # the property: this never happens
@@ -515,7 +522,7 @@ def run_scenario(sc: Dict[str, Any]) -> Dict[str, Any]:
         aux: List[Dict[str, Any]] = []
         if obs["V"] is not None and not any(e["r"] == "timeout" for e in events):
             try:
-                with contextlib.redirect_stdout(sink), contextlib.redirect_stderr(sink), _Alarm(CALL_TIMEOUT):
+                with contextlib.redirect_stdout(sink), contextlib.redirect_stderr(sink), _Alarm(CALL_TIMEOUT * SCALE[0]):
                     tv = epydoc2stan.type2stan(obs["V"])
                     if tv is not None:
                         flatten(tv)
@@ -529,7 +536,7 @@ def run_scenario(sc: Dict[str, Any]) -> Dict[str, Any]:
         if wobj is not None and wobj.parsed_docstring is not None and not any(e["r"] == "timeout" for e in events):
             wbuf = io.StringIO()
             try:
-                with contextlib.redirect_stdout(wbuf), contextlib.redirect_stderr(sink), _Alarm(CALL_TIMEOUT):
+                with contextlib.redirect_stdout(wbuf), contextlib.redirect_stderr(sink), _Alarm(CALL_TIMEOUT * SCALE[0]):
                     whtml = flatten(epydoc2stan.format_docstring(wobj))
                 whtml += "\n#reports: %d" % sum(1 for l in wbuf.getvalue().splitlines() if "Cannot find link target" in l)
             except (Exception, HangAlarm) as e:
@@ -681,6 +688,15 @@ def kf_toc_escapes(w: Dict[str, Any]) -> bool:
     return need is not None and "toc" in need
 
 
+def kf_default_role_leaks(w: Dict[str, Any]) -> bool:
+    """The only offence is the bystander rendered differently after a reST-family docstring that sets a default role and
+    then makes the parser crash (docutils' process-wide default role is never reset)."""
+    tr, sc = w.get("trace") or {}, w.get("scenario") or {}
+    return (w.get("failed") == ["Frame"] and tr.get("frame_ok", True) and tr.get("x_same") is False and not frame_offences(tr)
+            and sc.get("fmt") in ("restructuredtext", "google", "numpy") and "default-role::" in sc.get("docA", "")
+            and any(tr["F"][o]["parse"] == "crash" for o in ("A", "B")))
+
+
 def kf_poisoned_cache(w: Dict[str, Any]) -> bool:
     """Python twin of Docstring.tla KF_PoisonedCache: the only offence is a body rendered from the half-built cached
     document of an epytext docstring whose to_node() had failed (unreported) in get_summary / get_toc before."""
@@ -711,7 +727,7 @@ W_FIELD = {"epytext": "@ivar w: See L{meth} and L{nosuch.thing}.\n"}
 W_FIELD.update({f: ":ivar w: See `meth` and `nosuch.thing`.\n" for f in ("restructuredtext", "google", "numpy")})
 
 
-def inj_scenario(rec: Dict[str, Any], fmt: str, pt: bool) -> Dict[str, Any]:
+def inj_scenario(rec: Dict[str, Any], fmt: str, pt: bool, sur: bool = False) -> Dict[str, Any]:
     """The real scenario that realises one enumerated behaviour of Docstring.tla."""
     F = rec["F"]
     def doc(o: str) -> str:
@@ -720,6 +736,8 @@ def inj_scenario(rec: Dict[str, Any], fmt: str, pt: bool) -> Dict[str, Any]:
         base = TITLED if F[o]["toc"] in ("ok", "stanraises", "noderaises") else PLAIN
         return base[fmt].replace("Summary", "Summary of %s" % o, 1)
     docA = doc("A")
+    if sur:             # a lone surrogate in the text: legal in a string literal, cannot be written to a page as it is
+        docA = docA.replace("Summary of A", "Summary of A \ud800", 1)
     if rec["kindA"] == "cls" and fmt != "plaintext":      # the field that documents the attribute v
         docA = docA.rstrip("\n") + ("\n@ivar v: The I{v} attribute.\n" if fmt == "epytext" else "\n:ivar v: The *v* attribute.\n") + W_FIELD[fmt]
     kind = "class" if rec["kindA"] == "cls" else ("method" if rec["inherit"] else "function")
@@ -729,8 +747,8 @@ def inj_scenario(rec: Dict[str, Any], fmt: str, pt: bool) -> Dict[str, Any]:
 
 
 def _inj_job(job: Tuple[Dict[str, Any], str, bool]) -> Dict[str, Any]:
-    rec, fmt, pt = job
-    sc = inj_scenario(rec, fmt, pt)
+    rec, fmt, pt = job[:3]
+    sc = inj_scenario(rec, fmt, pt, sur=len(job) > 3 and job[3])
     tr = run_scenario(sc)
     tr["sc"] = sc
     return tr
@@ -752,6 +770,13 @@ FRAGMENTS = {
 }
 COMMON = ["\n", "\n\n", " ", "  ", "    ", "word", "a.b.c", "(", ")", "[", "]", "{", "}", "<a>", "&amp;", "&#0;", "<", ">", "&", ":", ";", "..", "...",
           " -- ", "~", "\\", "\t", "\u00a0", "\ud800", "I{a\u00a0b}", "*a\u00a0b*", "\x00", "\x0b", "\x0c", "\r", "\u2028", "\x85", "\x1f", "\ufeff", "\u200b", "\U0001f600", "é", "'", '"', "'''", "%s", "{0}"]
+
+
+# texts known to matter, run in every tier in front of the generated ones
+CURATED = [("curated", ".. default-role:: emphasis\n\n`x` here.\n\n.. VersionAdded:: 1\n"),
+           ("curated", "Summary.\n\n.. default-role:: literal\n\n.. unknowndirective:: x\n\n`y`\n"),
+           ("curated", "Summary \ud800 with I{a\u00a0b} and *a\u00a0b*.\n"),
+           ("curated", "Para\n  @note: x\n@note: y")]
 
 
 def real_docstrings(limit: int = 400) -> List[str]:
@@ -827,7 +852,7 @@ def gen_docstrings(seed: int, n: int) -> List[Tuple[str, str]]:
     def collect(x: Tuple[str, str]) -> None:
         out.append(x)
     collect()
-    return out[:n]
+    return (CURATED + out)[:n]
 
 
 # ------------------------------------------------------------------------------- Slug.tla: section anchors
@@ -859,7 +884,7 @@ def _slug_job(rec: Dict[str, Any]) -> Dict[str, Any]:
     if errs:
         return {"gen_error": [e.descr() for e in errs], "text": text}
     try:
-        with _Alarm(CALL_TIMEOUT):
+        with _Alarm(CALL_TIMEOUT * SCALE[0]):
             document = pd.to_node()
     except HangAlarm:
         return {"r": "timeout", "ids": [], "text": text}
@@ -928,6 +953,12 @@ def slim(tr: Dict[str, Any]) -> Dict[str, Any]:
             "ev": [{"o": e["o"], "op": e["op"], "r": e["r"], "st": e["st"]} for e in tr["ev"]]}
 
 
+def tlc_trace(tr: Dict[str, Any]) -> Dict[str, Any]:
+    """What Docstring.tla reads of a recorded execution (no nulls: TLC's JSON reader has no value for them)."""
+    return {"F": tr["F"], "inherit": tr["inherit"], "kindA": tr["kindA"], "vdoc": bool(tr.get("vdoc", False)),
+            "ev": [{"o": e["o"], "op": e["op"], "r": e["r"], "st": e["st"]} for e in tr["ev"]]}
+
+
 def inject_for(F: Dict[str, Any]) -> Dict[str, Any]:
     """The faults to inject for an enumerated configuration: node = 'once' is realised by the docstring itself."""
     return {o: (dict(NOFAULT) if F[o]["node"] == "once" else dict(F[o])) for o in OBJS}
@@ -951,7 +982,33 @@ def _worker_loop(fn: Any, conn: Any) -> None:
             conn.send(("err", f"{type(e).__name__}: {e}"))
 
 
-def budgeted_map(fn: Any, jobs: List[Any], nproc: int, hung: Any) -> Tuple[List[Any], bool]:
+def _scaled(args: Tuple[Any, Any, int]) -> Any:
+    fn, job, scale = args
+    SCALE[0] = scale
+    try:
+        return fn(job)
+    finally:
+        SCALE[0] = 1
+
+
+def second_opinion(fn: Any, jobs: List[Any], results: List[Any], nproc: int, hung: Any) -> int:
+    """A scenario that ran out of time is run again, alone among few, with four times the limits: on a loaded machine a
+    healthy call can be slow; only what still does not return is a Terminates verdict. Returns how many were cleared."""
+    again = [k for k, r in enumerate(results) if hung(r)]
+    if not again:
+        return 0
+    res2, _ = budgeted_map(_scaled, [(fn, jobs[k], 4) for k in again], max(2, nproc // 4), hung, deadline=JOB_DEADLINE * 4, budget=10 ** 6)
+    cleared = 0
+    for k, r2 in zip(again, res2):
+        if r2.get("hung"):
+            r2 = {"hung": True, "job": jobs[k]}
+        if not hung(r2):
+            cleared += 1
+        results[k] = r2
+    return cleared
+
+
+def budgeted_map(fn: Any, jobs: List[Any], nproc: int, hung: Any, deadline: int = 0, budget: int = 0) -> Tuple[List[Any], bool]:
     """
     Map over worker PROCESSES, one job at a time per worker, each job under a hard deadline: a worker that does not answer
     within JOB_DEADLINE seconds is killed and replaced, its job gets the result {"hung": True}.  Stops handing out jobs once
@@ -999,14 +1056,14 @@ def budgeted_map(fn: Any, jobs: List[Any], nproc: int, hung: Any) -> Tuple[List[
                     if hung(val):
                         hangs += 1
                     w["job"] = None
-                elif now - w["since"] > JOB_DEADLINE:                 # stuck where no signal handler can run: kill it
+                elif now - w["since"] > (deadline or JOB_DEADLINE):                 # stuck where no signal handler can run: kill it
                     w["proc"].kill()
                     w["proc"].join(5)
                     w["conn"].close()
                     results[w["job"]] = {"hung": True, "job": jobs[w["job"]]}
                     hangs += 1
                     workers[workers.index(w)] = spawn()
-            if hangs >= HANG_BUDGET:
+            if hangs >= (budget or HANG_BUDGET):
                 cut = True
     finally:
         for w in workers:
@@ -1040,6 +1097,7 @@ def run(ctx: Ctx) -> int:
     rng = random.Random(ctx.seed)
     ctx.register_matcher("format-toc-unguarded", kf_toc_escapes)
     ctx.register_matcher("epytext-half-built-document-cached", kf_poisoned_cache)
+    ctx.register_matcher("rst-default-role-leaks-after-crash", kf_default_role_leaks)
     nproc = max(2, min(NCPU, 16))
     all_traces: List[Dict[str, Any]] = []
 
@@ -1126,12 +1184,15 @@ def run(ctx: Ctx) -> int:
         fmt = markup_fmts[idx % len(markup_fmts)] if needs_titles else FMTS[idx % len(FMTS)]
         if any(rec["F"][o]["node"] == "once" for o in OBJS):
             fmt = "epytext"                              # the deviation lives in ParsedEpytextDocstring
-        jobs.append((rec, fmt, bool((idx // len(FMTS)) % 2)))
-    results, cut_inj = budgeted_map(_inj_job, jobs, nproc, lambda t: t.get("hung") or any(e["r"] == "timeout" for e in t.get("ev", [])))
-    if cut_inj or any(t.get("hung") for t in results):
+        jobs.append((rec, fmt, bool((idx // len(FMTS)) % 2), idx % 3 == 0))
+    hung_tr = lambda t: t.get("hung") or any(e["r"] == "timeout" for e in t.get("ev", []))
+    results, cut_inj = budgeted_map(_inj_job, jobs, nproc, hung_tr)
+    jobs = jobs[:len(results)]
+    ctx.extra["inject_slow_not_hung"] = second_opinion(_inj_job, jobs, results, nproc, hung_tr)
+    if cut_inj or any(hung_tr(t) for t in results):
         raise MachineryError("an injected scenario (well-formed template text) did not return: not a docstring-specific hang")
     mism = 0
-    for (rec, fmt, pt), tr in zip(jobs, results):
+    for (rec, fmt, pt, _sur), tr in zip(jobs, results):
         if "skip" in tr:
             raise MachineryError(f"injected scenario could not be built: {tr['skip']}")
         ctx.traces += 1
@@ -1158,6 +1219,8 @@ def run(ctx: Ctx) -> int:
         raise MachineryError("Slug: TLC emitted no document")
     rng.shuffle(srecs)
     sres, cut = budgeted_map(_slug_job, srecs, nproc, lambda x: x.get("hung") or x.get("r") == "timeout" or any(b["r"] == "timeout" for b in x.get("bad_orders", [])))
+    hung_sl = lambda x: x.get("hung") or x.get("r") == "timeout" or any(b["r"] == "timeout" for b in x.get("bad_orders", []))
+    ctx.extra["slug_slow_not_hung"] = second_opinion(_slug_job, srecs[:len(sres)], sres, nproc, hung_sl)
     sres = [{"r": "timeout", "ids": [], "text": slug_doc(x["job"]["doc"])} if x.get("hung") else x for x in sres]
     ctx.extra["slug_phase_cut_short_by_hangs"] = cut
     slug_mism = 0
@@ -1224,6 +1287,7 @@ def run(ctx: Ctx) -> int:
                           "faults": None, "order": order, "family": fam,
                           "wfield": fam == "ivarbody" and kind == "class" and fmt in W_FIELD and not (fmt in ("google", "numpy") and idx % 2)})
     fres, cut = budgeted_map(_fuzz_job, fjobs, nproc, lambda t: t.get("hung") or any(e["r"] == "timeout" for e in t.get("ev", [])))
+    ctx.extra["fuzz_slow_not_hung"] = second_opinion(_fuzz_job, fjobs[:len(fres)], fres, nproc, hung_tr)
     ctx.extra["fuzz_workers_killed"] = sum(1 for t in fres if t.get("hung"))
     fres = [hung_trace(t["job"]) if t.get("hung") else t for t in fres]
     ctx.extra["fuzz_phase_cut_short_by_hangs"] = cut
@@ -1267,7 +1331,7 @@ def run(ctx: Ctx) -> int:
     # ================================================================= TLC validates every recorded execution
     def validate(trs: List[Dict[str, Any]], count: bool = True) -> Tuple[set, List[str]]:
         f = ctx.scratch / "traces.json"
-        f.write_text(json.dumps([slim(t) for t in trs]))
+        f.write_text(json.dumps([tlc_trace(t) for t in trs]))
         rr = ctx.tlc("Docstring", CFG_FILE, workers=1, env={"TRACE_FILE": str(f)}, check=False, timeout=1500, count=count,
                      extra=["-continue"], java_opts=["-Xmx4g"])
         hard2 = [e for e in rr.errors if "behavior up to this point" not in e]
